@@ -7,7 +7,7 @@ from .c18 import r5_limit_asserts
 
 PID = "C14"
 META = {
-    "explanation": "Static analysis of the entry framing on the MIR of the current tree (default, all-features, release-like): the encode table (per guarded branch: threshold interval, byte stores as (shift, or-mask), returned length) and the decode table (OR terms as (byte, mask, shift, required length), scanner flag test) are read off def-use chains and control dependence and must satisfy the exact conditions of a lossless 1..5-byte little-endian base-128 framing of all u32 values: the five guard intervals partition 0..2^32, branch k's upper bound <= 2^(7k), bytes are 7-bit groups least-significant first with the continuation flag on all but the last, decode reassembles the same groups and reports the scanned length; the writer emits key length then value length and the reader decodes them in that order, advancing by the consumed byte counts; every `len as u32` narrowing is dominated by a surviving `len <= u32::MAX` assertion; the scratch buffer holds 5 bytes. The 2^32 values are not enumerated; the rule is shape-bound (a loop rewrite fails closed).",
+    "explanation": "Static analysis of the entry framing on the MIR of the current tree (default, all-features, release-like): the encode table (per guarded branch: threshold interval, byte stores as (shift, or-mask), returned length) and the decode table (OR terms as (byte, mask, shift, required length), scanner flag test) are read off def-use chains and control dependence and must satisfy the exact conditions of a lossless 1..5-byte little-endian base-128 framing of all u32 values: the five guard intervals partition 0..2^32, branch k's upper bound <= 2^(7k), bytes are 7-bit groups least-significant first with the continuation flag on all but the last, decode reassembles the same groups and reports the scanned length; the writer emits key length then value length and the reader decodes them in that order, advancing by the consumed byte counts; every `len as u32` narrowing is dominated by a surviving `len <= u32::MAX` assertion; the scratch buffer holds 5 bytes. The 2^32 values are not enumerated; the rule is shape-bound (a loop rewrite fails closed). The shared file-wellformedness rules (rules/shared.py) and the sorter's buffer arithmetic (shared with C17-R10) are re-run: lengths also pass through the index, the counting sink and the sorter buffer.",
     "assumptions": ["two's-complement shifts and masks on u32/u8 as defined by Rust"],
 }
 
@@ -27,6 +27,11 @@ def run(ck):
         ck.guard("C14-R7", r8_pending_block, ck, F, "C14-R7")
         ck.guard("C14-R7", r2_count_accepted, ck, F, "C14-R7")
         ck.guard("C14-R7", r1_write_all, ck, F, "C14-R7")
+        from . import shared
+        shared.file_wellformed(ck, F, "C14-R7")
+        # lengths up to 2^32-1 also pass through the sorter's buffer
+        from . import bufarith
+        ck.guard("C14-R8", bufarith.run_rule, ck, F, "C14-R8")
     if ck.tier == "thorough":
         ck.guard("C14-R6", r6_xver, ck)
     ck.trusted += ["rustc MIR construction", "integer shift/mask semantics"]
